@@ -1,10 +1,12 @@
 """C19 — every committed object is found, exactly once, under any layout."""
 from vlib import histprop, oracles
 from vlib.props import _hist_common as hc
-from vlib.props._hist_common import TRUSTED_BASE, ASSUMPTIONS, CORRESPONDENCE, BUDGET
+from vlib.props._hist_common import TRUSTED_BASE, ASSUMPTIONS, CORRESPONDENCE
+# every step is followed by several listings (plain, globs with classes / alternatives / escapes, malformed patterns)
+BUDGET = {"quick": dict(hc.BUDGET["quick"], histories=350), "thorough": hc.BUDGET["thorough"]}
 
-RULE = ("operation histories (new/cp/mv external+internal/rm/reset/commit/upgrade/purge over 1-2 objects, all layouts, both staging "
-        "placements) generated interactively against the implementation so that sources, globs and destinations hit existing paths; "
+RULE = ("operation histories (new/cp/mv external+internal/rm/reset/commit/upgrade/purge over up to 5 objects, all layouts and none, hostile ids, both staging "
+        "placements; listings with literal, *, ?, [..], [!..], {a,b}, \\x and malformed globs after every step) generated interactively against the implementation so that sources, globs and destinations hit existing paths; "
         "distinct non-trivial = distinct (operation, outcome class) pairs observed")
 
 
